@@ -129,7 +129,7 @@ def body(c):
         if len(lines) < 10000:
             raise vlib.ToolError("generator produced only %d cases" % len(lines))
         rng = random.Random(c.seed)
-        lines += [json.dumps(x, separators=(",", ":")) for x in random_cases(rng, 60 if c.quick else 1500, 150 if c.quick else 3000)]
+        lines += [json.dumps(x, separators=(",", ":")) for x in random_cases(rng, 60 if c.quick else 1000, 150 if c.quick else 2000)]
         with open(c.path("cases.ndjson"), "w") as f:
             for ln in lines:
                 f.write(ln + "\n")
